@@ -12,7 +12,7 @@ RULES = {"C04.a", "C04.b", "C04.c", "C04.d", "C04.e", "C04.f", "C01.i"}
 
 def check(ctx):
     ctx.assume("token types are unique within a mode (lookaheads are keyed by terminal id)")
-    kernel.analyze(ctx, RULES)
+    kernel.analyze(ctx, RULES | {"C12.d"})
     cursor.analyze(ctx, {"C04.c"})
     kernel.lookahead_wiring(ctx, ("C04.f",))
     kernel.token_type_uniqueness(ctx, "C04.g", "lookahead-table-key-is-the-token-type-but-token-types-may-repeat", "with patterns [b(?=x) -> 7, a -> 7] the input \"a\" yields no token: the lookahead of the first pattern is applied to the second (one table entry per token type, add_lookahead overwrites)")
